@@ -99,6 +99,7 @@ def run(ctx):
 
     # ---- C08.a cancellation safety of the receive race -------------------------------
     nsel = 0
+    raced = []
     for n, b in f.bodies.items():
         if not n.startswith("rtr::server::"):
             continue
@@ -116,6 +117,8 @@ def run(ctx):
                         continue
                     reads = multi_step_reads(f, co)
                     unsafe_reads = reads
+                    if any(c2.name == "read" and (c2.trait or "").endswith("AsyncReadExt") for c2 in (f.body(co).calls() if f.body(co) else [])):
+                        raced.append(co)
                     ctx.ob("R-ASYNC", "%s select arm %s" % (short(root_fn(f, n)) .replace("Connection::recv", "rtr::server::Connection::recv"),
                                                               short(co[:-len("::{closure#0}")])),
                            not unsafe_reads,
@@ -124,17 +127,23 @@ def run(ctx):
                            where=c.where(), detail=[{"in": short(r[0]), "call": r[1], "at": r[2]} for r in unsafe_reads] or None)
     ctx.floor("R-ASYNC", "select/timeout races in rtr::server", nsel, 1)
     # a completed header is handed out exactly once: read_header zeroes the cursor on every success path itself
-    rh = f.body(SRV + "read_header::{closure#0}")
+    # (the header reader is whichever future the receive race reads the socket in — found through the select, not by name)
+    rh = f.body(raced[0]) if raced else f.body(SRV + "read_header::{closure#0}")
     if rh is None:
-        ctx.missing("R-FLOW", "Connection::read_header", SRV + "read_header")
+        ctx.missing("R-FLOW", "Connection::read_header", "the socket-reading future raced in Connection::recv")
     else:
         ctx.saw_fn(rh.name)
         sy = K.sym_of(rh)
         zero = set()
         for bi, blk in enumerate(rh.blocks):
             for st in blk["stmts"]:
-                if st["s"] == "assign" and st["pl"]["p"] == [["d"]] and rh.local_ty(st["pl"]["l"]).startswith("&mut usize") \
-                        and render(strip_deep(sy.rvalue(st["rv"]))) == "0":
+                if st["s"] != "assign" or not st["pl"]["p"] or render(strip_deep(sy.rvalue(st["rv"]))) != "0":
+                    continue
+                pp = st["pl"]["p"]
+                through_ref = any(x[0] == "d" for x in pp)
+                is_usize = (pp == [["d"]] and rh.local_ty(st["pl"]["l"]).startswith("&mut usize")) or \
+                    (pp[-1][0] == "f" and len(pp[-1]) > 3 and pp[-1][3] == "usize")
+                if through_ref and is_usize:
                     zero.add(bi)
         oc = outcome(rh)
         succ_ret = [bi for bi in oc.success_assign_blocks]
@@ -147,7 +156,7 @@ def run(ctx):
             if rc is not None:
                 dom = rc.dominators()
                 z2 = {bi for bi, blk in enumerate(rc.blocks) for st in blk["stmts"]
-                      if st["s"] == "assign" and any(p[0] == "f" and p[1] == "header_len" for p in st["pl"]["p"])
+                      if st["s"] == "assign" and st["pl"]["p"] and st["pl"]["p"][-1][0] == "f" and len(st["pl"]["p"][-1]) > 3 and st["pl"]["p"][-1][3] == "usize"
                       and render(strip_deep(K.sym_of(rc).rvalue(st["rv"]))) == "0"}
                 uses = [c.bb for c in rc.calls() if c.name in ("check_version", "check_length") or (c.res or "").endswith("Header::pdu")]
                 ok_rh = bool(z2) and bool(uses) and all(any(z in dom.get(u, ()) for z in z2) for u in uses)
@@ -214,13 +223,30 @@ def run(ctx):
                "every write / flush of Connection::%s is awaited and an I/O error ends the response" % meth, where=b.loc, detail=chk)
         # the state named in CacheResponse, EndOfData and update is the source's
         st = {}
-        for c in b.calls():
-            if b.is_cleanup(c.bb):
-                continue
-            if c.res in (PDU + "CacheResponse::new", PDU + "EndOfData::new"):
-                st.setdefault(short(c.res), []).append(K.arg_renders(c)[1])
-            if c.name == "update" and (c.trait or "").endswith("Socket"):
-                st.setdefault("update", []).append(K.arg_renders(c)[1])
+
+        def collect(body_, subst, depth=0):
+            for c in body_.calls():
+                if body_.is_cleanup(c.bb):
+                    continue
+                if c.res in (PDU + "CacheResponse::new", PDU + "EndOfData::new"):
+                    st.setdefault(short(c.res), []).append(subst(K.arg_renders(c)[1]))
+                if c.name == "update" and (c.trait or "").endswith("Socket"):
+                    st.setdefault("update", []).append(subst(K.arg_renders(c)[1]))
+                # an awaited private async helper: look inside, with its parameters replaced by the arguments passed here
+                hb = f.body((c.res or "") + "::{closure#0}") if c.is_static else None
+                fr = f.fns.get(c.res or "")
+                outer = f.body(c.res or "")
+                if hb is not None and hb.is_coroutine and fr is not None and not fr.get("exported") and outer is not None and depth < 3:
+                    args = [subst(x) for x in K.arg_renders(c)]
+                    names = [outer.local_name(i + 1) for i in range(outer.arg_count)]
+                    m = {"^" + nm: a for nm, a in zip(names, args) if nm}
+
+                    def sub2(txt, m=m):
+                        for k_, v_ in sorted(m.items(), key=lambda kv: -len(kv[0])):
+                            txt = re.sub(re.escape(k_) + r"(?![\w])", lambda _m: v_, txt)
+                        return txt
+                    collect(hb, sub2, depth + 1)
+        collect(b, lambda x: x)
         src = "PayloadSource::diff(^self.source, ^state)↓Some.0.0" if meth == "serial" else "PayloadSource::full(^self.source).0"
         flat = [v for vs in st.values() for v in vs]
         ok = len(st) == 3 and all(re.sub(r"^\w+⟵", "", v) == src or v == src for v in flat)
@@ -386,7 +412,39 @@ def run(ctx):
                    detail={"call_sites": len(cs)})
 
 
-def run_dfa(body, oc, event, dfa):
+def event_sequences(body, event, depth=0):
+    """The set of event sequences on the success paths of an (acyclic) helper; None if it loops."""
+    from engine.facts import CallSite
+    oc = outcome(body)
+    out = set()
+    stack = [(0, (), frozenset())]
+    n = 0
+    while stack:
+        bb, seq, seen = stack.pop()
+        n += 1
+        if n > 20000:
+            return None
+        if bb in seen:
+            # the poll loop of an await: harmless revisits carry no new events
+            continue
+        seen = seen | {bb}
+        t = body.term(bb)
+        if t["t"] == "call":
+            c = CallSite(body, bb, t)
+            ev = event(c) if c.is_static else None
+            if ev:
+                seq = seq + (ev,)
+        if t["t"] == "return":
+            out.add(seq)
+            continue
+        for sc in body.succs(bb):
+            if sc in oc.fail_blocks or body.is_cleanup(sc):
+                continue
+            stack.append((sc, seq, seen))
+    return out
+
+
+def run_dfa(body, oc, event, dfa, depth=0):
     """Forward propagation of automaton states over the CFG (failure blocks excluded)."""
     start = {0: {0}}
     work = [0]
@@ -403,13 +461,28 @@ def run_dfa(body, oc, event, dfa):
             from engine.facts import CallSite
             c = CallSite(body, bb, t)
             ev = event(c) if c.is_static else None
-            if ev:
-                nxt = set()
-                for s in cur:
-                    if (s, ev) in dfa:
-                        nxt.add(dfa[(s, ev)])
-                    else:
-                        bad.append({"state": s, "event": ev, "at": body.where(bb)})
+            evs = [ev] if ev else []
+            if not ev and c.is_static and body.facts is not None:
+                # an awaited private async helper of the same impl: its own event sequence (it must have exactly one on
+                # its success paths) takes the place of the call
+                helper = body.facts.body((c.res or "") + "::{closure#0}")
+                fr = body.facts.fns.get(c.res or "")
+                if helper is not None and helper.is_coroutine and fr is not None and not fr.get("exported") and depth < 3:
+                    seqs = event_sequences(helper, event, depth + 1)
+                    if seqs is not None and len(seqs) == 1:
+                        evs = list(next(iter(seqs)))
+                    elif seqs is not None and len(seqs) > 1:
+                        evs = ["?ambiguous helper %s" % c.res]
+            if evs:
+                nxt = set(cur)
+                for ev in evs:
+                    step = set()
+                    for s in nxt:
+                        if (s, ev) in dfa:
+                            step.add(dfa[(s, ev)])
+                        else:
+                            bad.append({"state": s, "event": ev, "at": body.where(bb)})
+                    nxt = step
                 out = nxt
         if t["t"] == "return":
             finals |= cur
